@@ -29,7 +29,7 @@ def main():
     run_all = "--all" in sys.argv
     tier = sys.argv[sys.argv.index("--tier") + 1] if "--tier" in sys.argv else "quick"
     out = os.path.join(wt, "out")
-    dest = os.path.join(VERIF, "seeded", name)
+    dest = os.path.join("/verif", "seeded", name)  # results always land in the live /verif, also when run from a vp snapshot
     os.makedirs(dest, exist_ok=True)
     meta = {}
     if os.path.exists(os.path.join(out, "meta.json")):
